@@ -86,16 +86,30 @@ Variable sigok : string -> string -> string -> bool.
 Variable zdec : bytes -> bytes.
 Variable base : bytes.
 
+Lemma NF_validate key m d : NF (validateM sha sigok key m) d (validate sha sigok key d m) d.
+Proof.
+  unfold validateM. eapply NF_bind; [apply NF_get|].
+  destruct key as [k|]; [|apply NF_ret]. destruct (arts d (m_num m)) as [[|bb]|] eqn:Ea; try apply NF_ret.
+  destruct (m_sig m) eqn:Es; [|apply NF_ret]. destruct (N.eqb (blen bb) (m_size m)) eqn:El.
+  - eapply NF_bind; [apply NF_rd|]. cbn [andb]. apply NF_ret.
+  - replace (validate sha sigok (Some k) d m) with false; [apply NF_ret|].
+    unfold validate. rewrite Ea, El. reflexivity.
+Qed.
+
 Lemma NF_fall_back key s b d :
   NF (fall_backM sha sigok key s b) d (snd (fall_back sha sigok key d s b), true) (fst (fall_back sha sigok key d s b)).
 Proof.
   unfold fall_backM, fall_back.
   eapply NF_bind; [eapply NF_ignore, NF_rm_art|].
-  eapply NF_bind; [apply NF_get|].
   destruct (lb s) as [l|].
-  - destruct (negb (N.eqb (m_num l) b) && validate sha sigok key (del_art d b) l).
-    + eapply NF_bind; [eapply NF_attempt, NF_write_pj|]. apply NF_ret.
-    + eapply NF_bind; [eapply NF_ignore, NF_rm_art|].
+  - destruct (negb (N.eqb (m_num l) b)) eqn:En; cbn [andb].
+    + eapply NF_bind; [apply NF_validate|].
+      destruct (validate sha sigok key (del_art d b) l).
+      * eapply NF_bind; [eapply NF_attempt, NF_write_pj|]. apply NF_ret.
+      * eapply NF_bind; [eapply NF_ignore, NF_rm_art|].
+        eapply NF_bind; [eapply NF_attempt, NF_write_pj|]. apply NF_ret.
+    + eapply NF_bind; [apply NF_ret|]. cbn iota.
+      eapply NF_bind; [eapply NF_ignore, NF_rm_art|].
       eapply NF_bind; [eapply NF_attempt, NF_write_pj|]. apply NF_ret.
   - eapply NF_bind; [eapply NF_attempt, NF_write_pj|]. apply NF_ret.
 Qed.
@@ -105,10 +119,10 @@ Lemma NF_next_boot key s d :
 Proof.
   unfold next_bootM, next_boot. destruct (nb s) as [m|]; [|apply NF_ret].
   destruct (validate sha sigok key d m) eqn:E.
-  - eapply NF_bind; [apply NF_get|]. rewrite E. apply NF_ret.
+  - eapply NF_bind; [apply NF_validate|]. rewrite E. apply NF_ret.
   - pose proof (NF_fall_back key s (m_num m) d) as H.
     destruct (fall_back sha sigok key d s (m_num m)) as [d1 s1]. cbn in H.
-    eapply NF_bind; [apply NF_get|]. rewrite E. eapply NF_bind; [exact H|]. apply NF_ret.
+    eapply NF_bind; [apply NF_validate|]. rewrite E. eapply NF_bind; [exact H|]. apply NF_ret.
 Qed.
 
 Lemma NF_boot_failure key s n d :
